@@ -107,8 +107,25 @@ def twin_stream(seed, n, op='from_data'):
             wire = gen.ENC.enc(val)
         except Exception:
             continue
+        box = None
+        if wrap != 'struct' and r.random() < 0.4:     # (a dict is not hashable: no type argument)
+            # the same twins as the ARGUMENT of a generic dataclass (`Box[list[Union[int, float]]]`, then `Box[list[Union[float,
+            # int]]]`): the cache of subscripted classes is one more memo that may treat equal-comparing aliases as one type (C10-9)
+            box = ge.fresh('Box')
+            ge.decl['classes'].append({'name': box, 'fields': [{'name': 'x', 'ty': gen.tv('T')}], 'opts': {}, 'hook': None, 'tvars': ['T']})
+            try:
+                wire = gen.ENC.enc({'x': val})
+            except Exception:
+                continue
         for k, ms in enumerate((members, perm, members)):
-            out.append({'id': f'tw{seed}:{i}:{k}', 'decl': ge.decl, 'op': op, 'ty': W(ms), 'val': wire, 'spell': 1, 'stream': 'twins'})
+            ty = {'cls': [box, [W(ms)]]} if box else W(ms)
+            sc = {'id': f'tw{seed}:{i}:{k}', 'decl': ge.decl, 'op': op, 'ty': ty, 'val': wire, 'spell': 1, 'stream': 'twins'}
+            if box:
+                # the classes of a scenario are created afresh for it: the OTHER spelling is subscripted and used first, on the same class
+                other = perm if ms == members else members
+                sc['pre'] = [{'ty': {'cls': [box, [W(other)]]}, 'val': wire, 'handlers': None}]
+                sc['stream'] = 'twins-generic'
+            out.append(sc)
     return out
 
 
@@ -359,6 +376,21 @@ def with_history(scens, seed, share=0.3):
     return scens
 
 
+def with_class_history(scens, seed, share=0.6):
+    """earlier conversions, in the same interpreter and with the same call-level handlers, to the OTHER classes a scenario
+    declares (the nested class on its own before the class that encloses it, the base before the subclass, …): whatever a
+    class object, a converter or a module remembers from them must not matter (C10-10: a per-class converter memo that
+    forgets the enclosing class's handlers)"""
+    r = random.Random(seed * 104729 + 7)
+    for s in scens:
+        names = [d['name'] for d in (s.get('decl') or {}).get('classes', []) if not d.get('tvars')]
+        if s.get('op') in ('from_data', 'roundtrip') and 'ty' in s and 'pre' not in s and names and r.random() < share:
+            r.shuffle(names)
+            s['pre'] = [{'ty': {'cls': [nm, []]}, 'val': s['val'], 'handlers': s.get('handlers')} for nm in names[:r.randint(1, 3)]]
+            s['stream'] = s.get('stream', '') + '+class-history'
+    return scens
+
+
 def valid_stream(seed, n, op, history=0.3):
     """mostly-valid (type, value) scenarios (round trips need accepted values)"""
     out = []
@@ -438,7 +470,8 @@ PLUGS = {
                                   gen.scenarios_conv(seed + 3, sizes(tier, 800, 10000)), seed),
                 project=proj_verdict_value, oracles=['c09'], disagreement_is_failure=False),
     'C10': dict(streams=lambda seed, tier: gen.scenarios_history(seed, sizes(tier, 600, 2500), threads=4) + gen.scenarios_lru(seed, sizes(tier, 400, 4000)) +
-                twin_stream(seed, sizes(tier, 150, 2000)),
+                twin_stream(seed, sizes(tier, 150, 2000)) +
+                with_class_history(gen.scenarios_handlers(seed + 1, sizes(tier, 400, 5000)), seed),
                 project=proj_full, oracles=['c10'], disagreement_is_failure=True),
     'C11': dict(streams=lambda seed, tier: with_history(union_stream(seed, sizes(tier, 1200, 20000)), seed) + twin_stream(seed, sizes(tier, 100, 1500)) +
                 with_history(union_stream(seed + 7, sizes(tier, 300, 5000), op='roundtrip'), seed + 1, 0.5) + gen.scenarios_union_history(seed, sizes(tier, 250, 3000)) +
